@@ -60,7 +60,8 @@ struct Job {
     dev: bool,
 }
 
-fn spawn(bin: &str, prop: &str, tier: &str, seed: u64, from: u64, to: u64, stride: u64, known: &str, out_file: &str, cur_file: Option<&str>) -> std::io::Result<std::process::Child> {
+#[allow(clippy::too_many_arguments)]
+fn spawn(bin: &str, prop: &str, tier: &str, seed: u64, from: u64, to: u64, stride: u64, known: &str, out_file: &str, cur_file: Option<&str>, stop_file: Option<&str>) -> std::io::Result<std::process::Child> {
     let mut c = Command::new(bin);
     c.arg("worker").args(["--prop", prop, "--tier", tier, "--seed", &seed.to_string(), "--from", &from.to_string(), "--to", &to.to_string(), "--stride", &stride.to_string(), "--out", out_file]);
     if !known.is_empty() {
@@ -68,6 +69,9 @@ fn spawn(bin: &str, prop: &str, tier: &str, seed: u64, from: u64, to: u64, strid
     }
     if let Some(f) = cur_file {
         c.args(["--cur-file", f]);
+    }
+    if let Some(f) = stop_file {
+        c.args(["--stop-file", f]);
     }
     c.stdin(Stdio::null()).stdout(Stdio::null()).stderr(Stdio::piped());
     c.spawn()
@@ -97,6 +101,8 @@ pub fn check(a: &BTreeMap<String, String>) -> i32 {
     let tmp = format!("{root}/sim/target/run-{}-{}", prop, std::process::id());
     let _ = std::fs::create_dir_all(&tmp);
     let timeout = Duration::from_secs(num("timeout", if thorough { 7200 } else { 900 }));
+    // sensitivity sweeps only (never the registered checks): stop exploring once a violation is found
+    let stop_file: Option<String> = if a.contains_key("stop-early") { Some(format!("{tmp}/stop")) } else { None };
 
     println!("microsim check property={prop} tier={tier} VERIF_SEED={seed} workers={jobs} base_plans={bases}+{dev_bases}(dev)");
 
@@ -123,7 +129,7 @@ pub fn check(a: &BTreeMap<String, String>) -> i32 {
     while next < js.len() || !running.is_empty() {
         while next < js.len() && (running.len() as u64) < jobs {
             let j = &mut js[next];
-            match spawn(&j.bin, &prop, &tier, seed, j.from, j.to, j.stride, &known_path, &j.out_file, None) {
+            match spawn(&j.bin, &prop, &tier, seed, j.from, j.to, j.stride, &known_path, &j.out_file, None, stop_file.as_deref()) {
                 Ok(c) => {
                     j.child = Some(c);
                     j.started = Instant::now();
@@ -229,7 +235,7 @@ pub fn check(a: &BTreeMap<String, String>) -> i32 {
         let cur = format!("{tmp}/cur-{ji}.json");
         let per_plan = Duration::from_secs(if thorough { 1800 } else { 300 });
         let mut plan_json = String::new();
-        if let Ok(mut c) = spawn(&j.bin, &prop, &tier, seed, j.from, j.to, j.stride, &known_path, &format!("{tmp}/iso-{ji}.json"), Some(&cur)) {
+        if let Ok(mut c) = spawn(&j.bin, &prop, &tier, seed, j.from, j.to, j.stride, &known_path, &format!("{tmp}/iso-{ji}.json"), Some(&cur), None) {
             let st = Instant::now();
             loop {
                 match c.try_wait() {
